@@ -39,4 +39,18 @@ def mspSequence (k p : Nat) (seq : Array Base) (perm : Option (Array Nat)) (rcMo
     | some ivs => some (ivs.map fun iv =>
         ⟨rank (minRc iv.mini) % 2 ^ 32, extsFromSliceBounds seq iv.start iv.len, window seq iv.len iv.start⟩)
 
+/-- the deprecated `simple_scan::<V, P>(k, seq, permutation, rc)` (msp.rs 61-97): `Scanner::scan` with the permutation score,
+    every interval reduced to `(bucket as u16, start, len)`; `none` = one of its three assertions, a permutation index out
+    of range, or a panic of `scan` -/
+def simpleScan (k p : Nat) (seq : Array Base) (perm : Array Nat) (rcMode : Bool) : Option (List (Nat × Nat × Nat)) :=
+  if ¬ (k ≤ seq.size ∧ p ≤ 8 ∧ seq.size < 2 ^ 32) then none
+  else
+    -- every p-mer of the sequence is scored: an index outside the permutation panics
+    let inRange := (List.range (seq.size + 1 - p)).all fun q =>
+      decide (rank (window seq p q) < perm.size) && (!rcMode || decide (rank (rc (window seq p q)) < perm.size))
+    if p ≤ seq.size ∧ ¬ inRange then none
+    else match scan seq (permScore perm rcMode) k p with
+      | none => none
+      | some ivs => some (ivs.map fun iv => (rank (minRc iv.mini) % 2 ^ 16, iv.start, iv.len))
+
 end Msp
